@@ -6,6 +6,7 @@ import (
 	"go/types"
 	"math"
 	"strings"
+	"sync"
 
 	"pgoverif/checker/an"
 	"pgoverif/checker/core"
@@ -59,10 +60,50 @@ func runOpDecision(c *core.Ctx) {
 				return false
 			}
 			if id, ok := an.Unparen(call.Fun).(*ast.Ident); ok {
+				if name == "helper" {
+					return isRecClosure(info, id)
+				}
 				return id.Name == name
 			}
 			return false
 		}
+	}
+	// returnsNextElem: a return of the variable that received the first component of an iterator's Next(), possibly through
+	// one plain copy
+	returnsNextElem := func(info *types.Info, n ast.Node) bool {
+		r, ok := n.(*ast.ReturnStmt)
+		if !ok || len(r.Results) != 1 {
+			return false
+		}
+		o := an.ObjOf(info, r.Results[0])
+		if o == nil {
+			return false
+		}
+		fn := e.Ix.LookupFunc(an.PkgTLA, "Choose")
+		if fn == nil || fn.Body() == nil {
+			return false
+		}
+		from := map[types.Object]bool{}
+		ast.Inspect(fn.Body(), func(m ast.Node) bool {
+			as, isAs := m.(*ast.AssignStmt)
+			if !isAs || len(as.Rhs) != 1 {
+				return true
+			}
+			if call, isCall := an.Unparen(as.Rhs[0]).(*ast.CallExpr); isCall && len(as.Lhs) == 3 {
+				if sel, isSel := an.Unparen(call.Fun).(*ast.SelectorExpr); isSel && sel.Sel.Name == "Next" {
+					from[an.ObjOf(info, as.Lhs[0])] = true
+				}
+			}
+			return true
+		})
+		ast.Inspect(fn.Body(), func(m ast.Node) bool {
+			as, isAs := m.(*ast.AssignStmt)
+			if isAs && len(as.Lhs) == 1 && len(as.Rhs) == 1 && from[an.ObjOf(info, as.Rhs[0])] {
+				from[an.ObjOf(info, as.Lhs[0])] = true
+			}
+			return true
+		})
+		return from[o]
 	}
 	requireArg := func(idx int) func(*types.Info, *an.Func) ast.Expr {
 		return func(info *types.Info, fn *an.Func) ast.Expr {
@@ -156,24 +197,24 @@ func runOpDecision(c *core.Ctx) {
 			return ok && an.ObjOf(info, call.Fun) != nil && an.ObjOf(info, call.Fun).Name() == "pred"
 		}, ints: map[string]string{"idx": "", "len(sets)": ""}, ref: func(a dtAtoms) bool { return a.I("idx") == a.I("len(sets)") }},
 		{fn: ".QuantifiedUniversal", key: "fails-on-counterexample", why: "\\A is FALSE as soon as one tuple falsifies the body", find: returnsBool(false),
-			ints: map[string]string{"idx": "", "len(sets)": ""}, bools: []string{"it.Done()", "helper(idx+1)"},
+			ints: map[string]string{"idx": "", "len(sets)": ""}, bools: []string{"it.Done()", "$rec(idx+1)"},
 			ref: func(a dtAtoms) bool {
-				return a.I("idx") != a.I("len(sets)") && !a.B("it.Done()") && !a.B("helper(idx+1)")
+				return a.I("idx") != a.I("len(sets)") && !a.B("it.Done()") && !a.B("$rec(idx+1)")
 			}},
 		{fn: ".QuantifiedUniversal", key: "holds-otherwise", why: "... and TRUE when the bound set is exhausted", find: returnsBool(true),
-			ints: map[string]string{"idx": "", "len(sets)": ""}, bools: []string{"it.Done()", "helper(idx+1)"},
+			ints: map[string]string{"idx": "", "len(sets)": ""}, bools: []string{"it.Done()", "$rec(idx+1)"},
 			ref: func(a dtAtoms) bool { return a.I("idx") != a.I("len(sets)") && a.B("it.Done()") }},
 		{fn: ".QuantifiedExistential", key: "succeeds-on-witness", why: "\\E is TRUE as soon as one tuple satisfies the body", find: returnsBool(true),
-			ints: map[string]string{"idx": "", "len(sets)": ""}, bools: []string{"it.Done()", "helper(idx+1)"},
+			ints: map[string]string{"idx": "", "len(sets)": ""}, bools: []string{"it.Done()", "$rec(idx+1)"},
 			ref: func(a dtAtoms) bool {
-				return a.I("idx") != a.I("len(sets)") && !a.B("it.Done()") && a.B("helper(idx+1)")
+				return a.I("idx") != a.I("len(sets)") && !a.B("it.Done()") && a.B("$rec(idx+1)")
 			}},
 		{fn: ".QuantifiedExistential", key: "fails-otherwise", why: "... and FALSE when the bound set is exhausted", find: returnsBool(false),
-			ints: map[string]string{"idx": "", "len(sets)": ""}, bools: []string{"it.Done()", "helper(idx+1)"},
+			ints: map[string]string{"idx": "", "len(sets)": ""}, bools: []string{"it.Done()", "$rec(idx+1)"},
 			ref: func(a dtAtoms) bool { return a.I("idx") != a.I("len(sets)") && a.B("it.Done()") }},
 		{fn: ".SetRefinement", key: "keeps-satisfying", why: "{x \\in S : P(x)} keeps exactly the elements satisfying P", find: builderSet, bools: []string{"it.Done()", "pred(elem)"},
 			ref: func(a dtAtoms) bool { return !a.B("it.Done()") && a.B("pred(elem)") }},
-		{fn: ".Choose", key: "returns-first-satisfying", why: "CHOOSE returns an element satisfying the predicate", find: returnsObj("elemV"), bools: []string{"it.Done()", "pred(elemV)"},
+		{fn: ".Choose", key: "returns-first-satisfying", why: "CHOOSE returns an element satisfying the predicate", find: returnsNextElem, bools: []string{"it.Done()", "pred(elemV)"},
 			ref: func(a dtAtoms) bool { return !a.B("it.Done()") && a.B("pred(elemV)") }},
 		{fn: ".SetComprehension", key: "emits-at-full-depth", why: "one result per complete tuple of bound values", find: builderSet, ints: map[string]string{"idx": "", "len(sets)": ""},
 			ref: func(a dtAtoms) bool { return a.I("idx") == a.I("len(sets)") }},
@@ -191,7 +232,7 @@ func runOpDecision(c *core.Ctx) {
 			return false
 		}
 		id, ok := an.Unparen(call.Fun).(*ast.Ident)
-		if !ok || id.Name != "helper" {
+		if !ok || !isRecClosure(info, id) {
 			return false
 		}
 		last := call.Args[len(call.Args)-1]
@@ -263,7 +304,7 @@ func runOpDecision(c *core.Ctx) {
 			return false
 		}
 		id, ok := an.Unparen(call.Fun).(*ast.Ident)
-		if !ok || id.Name != "helper" {
+		if !ok || !isRecClosure(info, id) {
 			return false
 		}
 		tv := info.Types[call.Args[len(call.Args)-1]]
@@ -309,4 +350,57 @@ func singleReturnLast(fn *an.Func) ast.Expr {
 		return nil
 	}
 	return rs.Results[0]
+}
+
+// isRecClosure: id names a local variable of function type declared without a value (`var helper func(int) bool`), the idiom
+// for a closure that calls itself. The set is collected per program by fillRecClosures.
+func isRecClosure(info *types.Info, id *ast.Ident) bool {
+	o := info.ObjectOf(id)
+	if o == nil {
+		return false
+	}
+	_, ok := recClosures.Load(o)
+	return ok
+}
+
+// recClosures is shared by the concurrent runs of the mutation sweep: objects are unique per program, entries are only
+// ever added.
+var recClosures sync.Map
+var recClosuresFilled sync.Map
+
+func fillRecClosures(e *Env) {
+	if _, done := recClosuresFilled.LoadOrStore(e, true); done {
+		return
+	}
+	for _, fn := range e.Ix.Funcs() {
+		if fn.Body() == nil {
+			continue
+		}
+		info := fn.Pkg.Info
+		ast.Inspect(fn.Body(), func(m ast.Node) bool {
+			ds, ok := m.(*ast.DeclStmt)
+			if !ok {
+				return true
+			}
+			gd, ok := ds.Decl.(*ast.GenDecl)
+			if !ok || gd.Tok != token.VAR {
+				return true
+			}
+			for _, sp := range gd.Specs {
+				vs, isVS := sp.(*ast.ValueSpec)
+				if !isVS || len(vs.Values) != 0 {
+					continue
+				}
+				if _, isFunc := vs.Type.(*ast.FuncType); !isFunc {
+					continue
+				}
+				for _, nm := range vs.Names {
+					if o := info.Defs[nm]; o != nil {
+						recClosures.Store(o, true)
+					}
+				}
+			}
+			return true
+		})
+	}
 }
